@@ -229,6 +229,16 @@ def _p7(ctx):
             blocked = cuts | at_l
             stuck = sorted(n for n in gw.live() if n not in blocked and n in gw.reachable(gw.nodes[n].succs, blocked))
             w_ = [gw.where(n) for n in stuck if gw.nodes[n].kind == 'block'][:4]
+            # ... and the writer count: the end of the stream must be noticed by a waiter too
+            wc_l = xw._exp({a.nid for a in xw.atoms.values() if a.op == 'load' and
+                            any(s_[0] == 'param' and s_[1] == gw.root_inst and s_[2] == 4 for arg in gw.call_args(a.nid)[:1] for s_ in gw.deep_walk(arg))})
+            blocked_w = cuts | wc_l
+            stuck_w = sorted(n for n in gw.live() if n not in blocked_w and n in gw.reachable(gw.nodes[n].succs, blocked_w))
+            ww_ = [gw.where(n) for n in stuck_w if gw.nodes[n].kind == 'block'][:4]
+            ctx.add('P7i', 'T-LOOP', methods['wait'], not stuck_w,
+                    '%s::wait: every loop re-reads the writer count on each iteration' % adt if not stuck_w else
+                    '%s::wait has a loop that never looks at the writer count: a consumer waiting there does not notice that the last sender is gone and never reports the end of the stream; cycle through %s' % (adt, ww_),
+                    where=ww_[0] if ww_ else None, witness=ww_, sub=adt + '|loop-writers')
             ctx.add('P7i', 'T-LOOP', methods['wait'], not stuck,
                     '%s::wait: every loop re-reads the awaited cell on each iteration (or is a bounded spin)' % adt if not stuck else
                     '%s::wait has a loop that can go round forever without re-evaluating the wake-up condition (e.g. when an inner spin loop runs zero times): '
